@@ -158,6 +158,8 @@ impl Repr {
     #[inline]
     pub fn as_sign_typed(&self) -> (Sign, TypedReprRef<'_>) {
         let (abs_capacity, sign) = self.sign_capacity();
+        #[cfg(dashu_verif)]
+        verif_cut(abs_capacity > 2);
 
         // SAFETY: the capacity is checked before accessing the fields.
         //         see the documentation for the `capacity` fields for invariants.
@@ -185,6 +187,8 @@ impl Repr {
     #[inline]
     pub fn into_typed(self) -> TypedRepr {
         debug_assert!(self.capacity.get() > 0);
+        #[cfg(dashu_verif)]
+        verif_cut(self.capacity.get() > 2);
 
         // SAFETY: the capacity is checked before accessing the fields.
         //         see the documentation for the `capacity` fields for invariants.
@@ -225,6 +229,8 @@ impl Repr {
     /// Get a reference to the words in the `Repr`, together with the sign.
     pub fn as_sign_slice(&self) -> (Sign, &[Word]) {
         let (capacity, sign) = self.sign_capacity();
+        #[cfg(dashu_verif)]
+        verif_cut(capacity > 2);
 
         // SAFETY: the capacity is checked before accessing the fields.
         //         see the documentation for the `capacity` fields for invariants.
@@ -350,6 +356,8 @@ impl Repr {
     /// Panics if the `capacity` is negative
     pub fn into_buffer(self) -> Buffer {
         debug_assert!(self.capacity.get() > 0); // invariant
+        #[cfg(dashu_verif)]
+        verif_cut(self.capacity.get() > 2);
 
         // SAFETY: the capacity is checked before accessing the union fields.
         //         see the documentation for the `capacity` fields for invariants.
@@ -459,10 +467,109 @@ impl Repr {
     }
 }
 
+/// Verification hook (only with `--cfg dashu_verif`): in the "inline-only" checking regime
+/// (`--cfg dashu_verif_inline` under Kani) every path that interprets a `Repr` as heap-backed
+/// is cut, so that a model checker never explores the heap reading of an inline value.
+/// In every other configuration this function does nothing.
+#[cfg(dashu_verif)]
+#[inline(always)]
+const fn verif_cut(_is_heap: bool) {
+    #[cfg(all(kani, dashu_verif_inline))]
+    if _is_heap {
+        // SAFETY: only compiled for the model checker, which reports reaching this point
+        unsafe { core::hint::assert_unchecked(false) }
+    }
+}
+
+/// Verification hooks (only with `--cfg dashu_verif`): construct a `Repr` with an explicitly
+/// chosen layout, and observe the layout of an existing `Repr`.
+#[cfg(dashu_verif)]
+impl Repr {
+    /// Build a `Repr` holding exactly `words` (no normalization is performed), with the given sign.
+    /// With 0..=2 words the value is stored inline; with more words it is stored on the heap in a
+    /// buffer with exactly the given `capacity` (or the default capacity if `capacity` is 0).
+    pub fn verif_from_shape(sign: Sign, words: &[Word], capacity: usize) -> Repr {
+        let cap: isize = match words.len() {
+            0 | 1 => 1,
+            2 => 2,
+            n => {
+                if capacity == 0 {
+                    Buffer::default_capacity(n) as isize
+                } else {
+                    capacity as isize
+                }
+            }
+        };
+        let signed_cap = match sign {
+            Sign::Positive => cap,
+            Sign::Negative => -cap,
+        };
+        // SAFETY: cap >= 1
+        let capacity = unsafe { NonZeroIsize::new_unchecked(signed_cap) };
+        match words.len() {
+            0 => Repr {
+                data: ReprData { inline: [0, 0] },
+                capacity,
+            },
+            1 => Repr {
+                data: ReprData {
+                    inline: [words[0], 0],
+                },
+                capacity,
+            },
+            2 => Repr {
+                data: ReprData {
+                    inline: [words[0], words[1]],
+                },
+                capacity,
+            },
+            n => {
+                let mut buffer = Buffer::allocate_exact(cap as usize);
+                buffer.push_slice(words);
+                let ptr = buffer.as_mut_ptr();
+                mem::forget(buffer);
+                Repr {
+                    data: ReprData { heap: (ptr, n) },
+                    capacity,
+                }
+            }
+        }
+    }
+
+    /// Return (signed capacity field, number of words stored, first two raw data words are inline).
+    pub fn verif_shape(&self) -> (isize, usize, bool) {
+        let cap = self.capacity.get();
+        let abs = cap.unsigned_abs();
+        // SAFETY: the interpretation is selected by the capacity, as everywhere else in this file
+        unsafe {
+            if abs <= 2 {
+                let len = if self.data.inline[1] != 0 {
+                    2
+                } else if self.data.inline[0] != 0 {
+                    1
+                } else {
+                    0
+                };
+                (cap, len, true)
+            } else {
+                (cap, self.data.heap.1, false)
+            }
+        }
+    }
+
+    /// The raw inline words (meaningful only if the value is stored inline).
+    pub fn verif_inline_words(&self) -> [Word; 2] {
+        // SAFETY: both union interpretations are plain data of the same size
+        unsafe { self.data.inline }
+    }
+}
+
 // Cloning for Repr is written in a verbose way because it's performance critical.
 impl Clone for Repr {
     fn clone(&self) -> Self {
         let (capacity, sign) = self.sign_capacity();
+        #[cfg(dashu_verif)]
+        verif_cut(capacity > 2);
 
         // SAFETY: see the comments inside the block
         let new = unsafe {
@@ -493,6 +600,8 @@ impl Clone for Repr {
     fn clone_from(&mut self, src: &Self) {
         let (src_cap, src_sign) = src.sign_capacity();
         let (cap, _) = self.sign_capacity();
+        #[cfg(dashu_verif)]
+        verif_cut(src_cap > 2 || cap > 2);
 
         // SAFETY: see the comments inside the block
         unsafe {
@@ -542,6 +651,8 @@ impl Clone for Repr {
 impl Drop for Repr {
     fn drop(&mut self) {
         let cap = self.capacity();
+        #[cfg(dashu_verif)]
+        verif_cut(cap > 2);
         if cap > 2 {
             // SAFETY: the data is heap allocated when abs(capacity) > 2 (invariant of Repr)
             unsafe {
